@@ -78,6 +78,15 @@ pub fn alphabet(inst: usize, allowed: &[u16], ids: &[u16], layouts: usize) -> Ve
                     true,
                 );
             }
+            // an options template followed, in the same packet / message, by data for it (the id may be cached as a plain
+            // template at that moment: the options template is the latest definition from the next set on)
+            add(
+                format!("OTD({},{})", pn, id),
+                if *proto == 9 { v9p(vec![v9_ot(*id), V9Set::Data(*id, body12(salt + 5))]) } else { ipm(vec![ip_ot(*id), IpfixSet::Data(*id, body12(salt + 5))]) },
+                None,
+                *proto,
+                true,
+            );
             add(
                 format!("DT({},{},B)", pn, id),
                 if *proto == 9 { v9p(vec![V9Set::Data(*id, body12(salt + 2)), v9_t(*id, 1)]) } else { ipm(vec![IpfixSet::Data(*id, body12(salt + 2)), ip_t(*id, 1)]) },
